@@ -15,9 +15,88 @@ import math
 
 from harness.core import MachineryError, b2f, f2b
 
-MODEL_MODULES = ['SkyllhModel.Model.Params', 'SkyllhModel.Model.ParamsHeap']
+MODEL_MODULES = ['SkyllhModel.Model.Params', 'SkyllhModel.Model.ParamsHeap', 'SkyllhModel.Model.ParamsR7']
 
 PFILE = 'skyllh/core/parameters.py'
+
+# Python callables with an executable Lean counterpart that the c04_* theorems are about and that run(ctx) compares with the
+# real callable on every run (harness/core.py: model_map_report)
+MODEL_MAP = {
+    'skyllh/core/parameters.py::Parameter.__init__': ['Params.Param.create'],
+    'skyllh/core/parameters.py::Parameter.value': ['Params.Param.setValue', 'Params.Param.accepts', 'Params.Spec.accepts'],
+    'skyllh/core/parameters.py::Parameter.__eq__': ['Params.Param.eq'],
+    'skyllh/core/parameters.py::Parameter.change_fixed_value': ['Params.Param.changeFixedValue', 'Params.PSet.changeFixedRaw'],
+    'skyllh/core/parameters.py::Parameter.make_fixed': ['Params.Param.makeFixed'],
+    'skyllh/core/parameters.py::Parameter.make_floating': ['Params.Param.makeFloating', 'Params.Param.applyFloating'],
+    'skyllh/core/parameters.py::Parameter._get_floating_settings': ['Params.Param.floatingSettings'],
+    'skyllh/core/parameters.py::ParameterSet.union': ['Params.PSet.union', 'Params.PSet.unionN', 'Params.Heap.unionSets'],
+    'skyllh/core/parameters.py::ParameterSet.__init__': ['Params.PSet.addAll', 'Params.Heap.ctorFrom'],
+    'skyllh/core/parameters.py::ParameterSet.params': ['Params.PSet.views', 'Params.Spec.views'],
+    'skyllh/core/parameters.py::ParameterSet.params_name_list': ['Params.PSet.views', 'Params.Spec.views'],
+    'skyllh/core/parameters.py::ParameterSet.fixed_params': ['Params.PSet.views', 'Params.Spec.views'],
+    'skyllh/core/parameters.py::ParameterSet.fixed_params_name_list': ['Params.PSet.views', 'Params.Spec.views'],
+    'skyllh/core/parameters.py::ParameterSet.fixed_params_mask': ['Params.PSet.views', 'Params.Spec.views'],
+    'skyllh/core/parameters.py::ParameterSet.fixed_params_idxs': ['Params.PSet.views', 'Params.Spec.views'],
+    'skyllh/core/parameters.py::ParameterSet.floating_params': ['Params.PSet.views', 'Params.Spec.views'],
+    'skyllh/core/parameters.py::ParameterSet.floating_params_name_list': ['Params.PSet.views', 'Params.Spec.views'],
+    'skyllh/core/parameters.py::ParameterSet.floating_params_mask': ['Params.PSet.views', 'Params.Spec.views'],
+    'skyllh/core/parameters.py::ParameterSet.floating_params_idxs': ['Params.PSet.views', 'Params.Spec.views'],
+    'skyllh/core/parameters.py::ParameterSet.n_params': ['Params.PSet.views', 'Params.Spec.views'],
+    'skyllh/core/parameters.py::ParameterSet.n_fixed_params': ['Params.PSet.views', 'Params.Spec.views'],
+    'skyllh/core/parameters.py::ParameterSet.n_floating_params': ['Params.PSet.views', 'Params.Spec.views'],
+    'skyllh/core/parameters.py::ParameterSet.fixed_param_values': ['Params.PSet.views', 'Params.Spec.views'],
+    'skyllh/core/parameters.py::ParameterSet.floating_param_initials': ['Params.PSet.views', 'Params.Spec.views'],
+    'skyllh/core/parameters.py::ParameterSet.floating_param_bounds': ['Params.PSet.views', 'Params.Spec.views'],
+    'skyllh/core/parameters.py::ParameterSet.__len__': ['Params.PSet.views', 'Params.Spec.views'],
+    'skyllh/core/parameters.py::ParameterSet.get_fixed_pidx': ['Params.PSet.views', 'Params.Spec.views'],
+    'skyllh/core/parameters.py::ParameterSet.get_floating_pidx': ['Params.PSet.views', 'Params.Spec.views'],
+    'skyllh/core/parameters.py::ParameterSet.has_fixed_param': ['Params.PSet.views', 'Params.Spec.views'],
+    'skyllh/core/parameters.py::ParameterSet.has_floating_param': ['Params.PSet.views', 'Params.Spec.views'],
+    'skyllh/core/parameters.py::ParameterSet.get_params_dict': ['Params.PSet.views', 'Params.Spec.views'],
+    'skyllh/core/parameters.py::ParameterSet.get_floating_params_dict': ['Params.PSet.views', 'Params.Spec.views'],
+    'skyllh/core/parameters.py::ParameterSet.__contains__': ['Params.PSet.hasName', 'Params.PSet.views'],
+    'skyllh/core/parameters.py::ParameterSet.has_param': ['Params.PSet.hasName', 'Params.PSet.views'],
+    'skyllh/core/parameters.py::ParameterSet.generate_random_floating_param_initials': ['Params.PSet.randomInitials'],
+    'skyllh/core/parameters.py::ParameterSet.make_params_fixed': ['Params.PSet.makeParamsFixed', 'Params.PSet.fixF', 'Params.PSet.editAll', 'Params.PSet.rebuildLoop', 'Params.PSet.validate'],
+    'skyllh/core/parameters.py::ParameterSet.make_params_floating': ['Params.PSet.makeParamsFloating', 'Params.PSet.floatF', 'Params.PSet.editAll', 'Params.PSet.rebuildLoop', 'Params.PSet.validate'],
+    'skyllh/core/parameters.py::ParameterSet.update_fixed_param_value_cache': ['Params.PSet.updateFixedValueCache'],
+    'skyllh/core/parameters.py::ParameterSet.copy': ['Params.Heap.copySet'],
+    'skyllh/core/parameters.py::ParameterSet.add_param': ['Params.PSet.addParam', 'Params.Heap.addThrough'],
+    'skyllh/core/parameters.py::ParameterModelMapper.is_global_fitparam_a_local_param': ['Params.PMM.isGlobalFitparamALocalParam', 'Params.PMM.gpidxColumn'],
+    'skyllh/core/parameters.py::ParameterModelMapper.is_local_param_a_fitparam': ['Params.PMM.isLocalParamAFitparam'],
+    'skyllh/core/parameters.py::ParameterModelMapper.__init__': ['Params.PMM.create'],
+    'skyllh/core/parameters.py::ParameterModelMapper.n_models': ['Params.PMM.counts'],
+    'skyllh/core/parameters.py::ParameterModelMapper.n_global_params': ['Params.PMM.counts'],
+    'skyllh/core/parameters.py::ParameterModelMapper.n_global_fixed_params': ['Params.PMM.counts'],
+    'skyllh/core/parameters.py::ParameterModelMapper.n_global_floating_params': ['Params.PMM.counts'],
+    'skyllh/core/parameters.py::ParameterModelMapper.n_sources': ['Params.PMM.srcModelIdxs'],
+    'skyllh/core/parameters.py::ParameterModelMapper.unique_model_param_names': ['Params.PMM.modelFieldNames'],
+    'skyllh/core/parameters.py::ParameterModelMapper.unique_source_param_names': ['Params.PMM.srcFieldNames'],
+    'skyllh/core/parameters.py::ParameterModelMapper.get_model_param_name': ['Params.PMM.getModelParamName'],
+    'skyllh/core/parameters.py::ParameterModelMapper.get_gflp_idx': ['Params.PMM.gflpIdx'],
+    'skyllh/core/parameters.py::ParameterModelMapper.get_src_model_idxs': ['Params.PMM.srcModelIdxsChecked', 'Params.PMM.srcModelIdxs', 'Params.PMM.sourcesTypeOk'],
+    'skyllh/core/parameters.py::ParameterModelMapper.map_param': ['Params.PMM.mapParam', 'Params.PMM.mapParamCore', 'Params.PMM.checkAliases', 'Params.PMM.aliasColumn'],
+    'skyllh/core/parameters.py::ParameterModelMapper.create_model_params_dict': ['Params.PMM.modelParamsDict', 'Params.PMM.modelParamsDictByName', 'Params.PMM.modelParamsDictInt', 'Params.PMM.rowEntries'],
+    'skyllh/core/parameters.py::ParameterModelMapper.create_src_params_recarray': ['Params.PMM.srcParamsRecarrayChecked', 'Params.PMM.srcParamsRecarray', 'Params.PMM.srcParamsRecarrayNone', 'Params.PMM.srcParamsRecarrayIdx', 'Params.PMM.srcParamsRecarrayIdxInt', 'Params.PMM.rowEntries', 'Params.Spec.cell'],
+    'skyllh/core/parameters.py::ParameterModelMapper.create_global_params_dict': ['Params.PSet.views', 'Params.Spec.views'],
+    'skyllh/core/parameters.py::ParameterModelMapper.create_global_floating_params_dict': ['Params.PMM.globalFloatingParamsDict'],
+    'skyllh/core/parameters.py::ParameterModelMapper.get_local_param_is_global_floating_param_mask': ['Params.PMM.localParamIsGlobalFloatingMask'],
+}
+
+
+# (class, function, argument, field of `Params.Defaults`): `None` defaults the protocol relies on (token `N` =
+# argument left out); `add_param(atfront)` is the one non-None default
+DEFAULT_SITES = [
+    ('Parameter', '__init__', 'valmin', 'paramValminNone'), ('Parameter', '__init__', 'valmax', 'paramValmaxNone'),
+    ('Parameter', '__init__', 'isfixed', 'paramIsfixedNone'), ('Parameter', 'make_fixed', 'initial', 'makeFixedInitialNone'),
+    ('Parameter', 'make_floating', 'initial', 'makeFloatingInitialNone'),
+    ('Parameter', 'make_floating', 'valmin', 'makeFloatingValminNone'),
+    ('Parameter', 'make_floating', 'valmax', 'makeFloatingValmaxNone'),
+    ('ParameterModelMapper', 'map_param', 'models', 'mapParamModelsNone'),
+    ('ParameterModelMapper', 'map_param', 'model_param_names', 'mapParamNamesNone'),
+    ('ParameterModelMapper', 'get_src_model_idxs', 'sources', 'srcModelIdxsSourcesNone'),
+    ('ParameterModelMapper', 'create_src_params_recarray', 'sources', 'recarraySourcesNone'),
+]
 
 
 def generated(ctx):
@@ -30,11 +109,27 @@ def generated(ctx):
         atfront = False
         ctx.proof['generated_fallbacks'].append('add_param.atfront')
         ctx.note('extraction of ParameterSet.add_param(atfront=…) failed (%s); using recorded value False' % e)
+    fields = ['addParamAtfront := %s' % ('true' if atfront else 'false')]
+    for cls, fn, arg, field in DEFAULT_SITES:
+        try:
+            names, required, _ = extract.func_params(PFILE, cls, fn)
+            if arg not in names or arg in required:
+                isnone = False                       # no such argument / no default at all
+            else:
+                isnone = extract.arg_default(PFILE, cls, fn, arg) is None
+        except Exception as e:  # noqa
+            isnone = True
+            ctx.proof['generated_fallbacks'].append('%s.%s.%s' % (cls, fn, arg))
+            ctx.note('extraction of the default of %s.%s(%s=…) failed (%s); using recorded value None' % (cls, fn, arg, e))
+        fields.append('%s := %s' % (field, 'true' if isnone else 'false'))
     return ('/- generated by harness/props/c04.py from %s — do not edit -/\n'
+            'import SkyllhModel.Model.ParamsR7\n'
             'namespace Gen.C04\n'
             '/-- default of `ParameterSet.add_param(param, atfront=…)`: `ParameterSet(params)` and `union` add with it -/\n'
             'def addParamAtfrontDefault : Bool := %s\n'
-            'end Gen.C04\n') % (PFILE, 'true' if atfront else 'false')
+            '/-- defaults of the public signatures (`…None := true`: the default of that argument is `None`) -/\n'
+            'def defaults : Params.Defaults :=\n  { %s }\n'
+            'end Gen.C04\n') % (PFILE, 'true' if atfront else 'false', ',\n    '.join(fields))
 
 
 # ------------------------------------------------------------------------------------------
@@ -89,9 +184,9 @@ def canon_tab_payload(s):
 def canon_model_views(d):
     out = {}
     for k, v in d.items():
-        if k in ('pd', 'fd', 'gd') or k.startswith('md'):
+        if k in ('pd', 'fd', 'gd', 'gfd') or k.startswith('md'):
             v = canon_dict_payload(v)
-        elif k in ('tab', 'tabspec', 'tabnone', 'tabidx'):
+        elif k in ('tab', 'tabspec', 'tabnone', 'tabidx', 'tabidxs'):
             v = canon_tab_payload(v)
         elif k in ('fitloc', 'mfields'):
             v = sl(sorted(v.split(','))) if v != '-' else v
@@ -401,6 +496,70 @@ class Ref:
             out.append('%s=%s' % (p['name'], r))
         return sl(out)
 
+    def peq(self, others):
+        """`p == q` and `q == p` (Parameter.__eq__ as documented in its comments: name, value, isfixed; for floating
+        parameters also initial and both bounds) for every parameter of the table and every constructible `q`"""
+        qs = []
+        for a in others:
+            try:
+                qs.append(ref_param(a))
+            except RefErr:
+                pass
+
+        def eq(p, q):
+            if p['name'] != q['name'] or p['val'] != q['val'] or p['fx'] != q['fx']:
+                return False
+            if not p['fx']:
+                return p['ini'] == q['ini'] and p['lo'] == q['lo'] and p['hi'] == q['hi']
+            return True
+        return sl('%s=%s' % (p['name'], ''.join(fob(eq(p, q)) + fob(eq(q, p)) for q in qs) or '_') for p in self.P)
+
+    def pmm_views3(self, g, q, ii=(), pairs=()):
+        """the views of the driver's `pview3`"""
+        flidx = [j for j, p in enumerate(self.P) if not p['fx']]
+        fln = [self.P[j]['name'] for j in flidx]
+        n, m = len(self.models), len(self.P)
+        src = [i for i in range(n) if self.models[i][1]]
+        fields = sorted(set(a for i in src for a in self.alias[i] if a is not None))
+        val, k = [], 0
+        for j, p in enumerate(self.P):
+            if p['fx']:
+                val.append((p['val'], -(j + 1)))
+            else:
+                val.append((g[k], k + 1))
+                k += 1
+
+        def wrap(i, length):
+            return i if 0 <= i < length else (i + length if -length <= i < 0 else None)
+        if any(wrap(i, n) is None for i in ii) or any(
+                a is not None and a not in fields for i in ii for a in self.alias[wrap(i, n)]):
+            tab = 'ERR'
+        else:
+            rows = []
+            for i in ii:
+                cells = []
+                for f in fields:
+                    js = [j for j, a in enumerate(self.alias[wrap(i, n)]) if a == f]
+                    cells.append('%s=%s' % (f, 'NA' if not js else '%s:%d' % (f2b(val[js[0]][0]), val[js[0]][1])))
+                rows.append('/'.join([str(i)] + cells))
+            tab = sl(rows, ';')
+
+        def mpn(i, j):
+            wi, wj = wrap(i, n), wrap(j, m)
+            if wi is None or wj is None:
+                return 'E'
+            a = self.alias[wi][wj]
+            return 'N' if a is None else a
+        return {
+            'tabidxs': tab,
+            'sgnmd': sl('%d=%s' % (i, 'E' if not (0 <= i < n) else ('d' if any(a is not None for a in self.alias[i]) else 'e'))
+                        for i in ii),
+            'mpnw': sl('%d/%d=%s' % (i, j, mpn(i, j)) for i, j in pairs),
+            'counts': '%d/%d/%d/%d' % (len(self.models), len(self.P), len(self.P) - len(flidx), len(flidx)),
+            'gflp': sl('%s=%s' % (n, fln.index(n) if n in fln else 'K') for n in q),
+            'gfd': fdict(dict((self.P[j]['name'], g[k]) for k, j in enumerate(flidx))),
+        }
+
     def pmm_views2(self, g, names, idxs):
         """the views of the driver's `pview2` (all with sources=None unless stated)"""
         n = len(self.models)
@@ -475,13 +634,17 @@ class Ref:
             'gd': fdict(dict((p['name'], val[j][0]) for j, p in enumerate(self.P))),
         }
         rows = []
-        for i in chosen:
+        if sel is not None and any(i < n and not self.models[i][1] for i in sel):
+            # a model that is no SourceModel in `sources`: TypeError (get_src_model_idxs and the record array)
+            out['sel'] = 'ERR'
+            chosen = None
+        for i in (chosen or []):
             cells = []
             for f in fields:
                 js = [j for j, a in enumerate(self.alias[i]) if a == f]
                 cells.append('%s=%s' % (f, 'NA' if not js else '%s:%d' % (f2b(val[js[0]][0]), val[js[0]][1])))
             rows.append('/'.join([str(i)] + cells))
-        out['tab'] = sl(rows, ';')
+        out['tab'] = 'ERR' if chosen is None else sl(rows, ';')
         for i in range(n):
             out['md%d' % i] = fdict(dict((a, val[j][0]) for j, a in enumerate(self.alias[i]) if a is not None))
         if sel is None:
@@ -583,7 +746,7 @@ def impl_pmm_views(pmm, mobjs, foreign, g, sel, fm=None):
         return None if sel is None else fm.one_or_seq([mobjs[i] if i < n else foreign(i) for i in sel])
 
     def tab():
-        return fmt_rec(pmm.create_src_params_recarray(fm.vector(glist, allow_scalar=True), sources=sources()))
+        return fmt_rec(pmm.create_src_params_recarray(fm.vector(glist, allow_scalar=True), **fm.kw(sources=sources())))
 
     def md(i):
         # by index here; by name and by object: impl_pmm_views2 (mdn_<name>)
@@ -598,7 +761,7 @@ def impl_pmm_views(pmm, mobjs, foreign, g, sel, fm=None):
 
     v = {
         'src': src,
-        'sel': lambda: sl(int(i) for i in pmm.get_src_model_idxs(sources=sources())),
+        'sel': lambda: sl(int(i) for i in pmm.get_src_model_idxs(**fm.kw(sources=sources()))),
         'fields': lambda: sl(sorted(str(x) for x in pmm.unique_source_param_names)),
         'mpn': lambda: sl((sl(('N' if pmm.get_model_param_name(i, j) is None else pmm.get_model_param_name(i, j))
                               for j in range(pmm.n_global_params)) for i in range(n)), ';'),
@@ -685,6 +848,134 @@ def impl_pmm_views2(pmm, mobjs, g, names, idxs, fm=None):
     return {k: _try(f) for k, f in v.items()}
 
 
+def impl_pmm_views3(pmm, g, q, fm=None, ii=(), pairs=()):
+    import numpy as np
+    fm = fm or _FormsAt(None, False)
+    glist = [float(x) for x in g]
+
+    def fmt_rec_signed(rec):
+        out = fmt_rec(rec)
+        return out
+
+    def sgnmd(i):
+        try:
+            d = pmm.create_model_params_dict(fm.vector(glist), model=(np.int64(i) if fm.enabled and i % 2 else i))
+            return 'd' if len(d) else 'e'
+        except Exception:  # noqa
+            return 'E'
+
+    def mpn(i, j):
+        try:
+            a = pmm.get_model_param_name(i, j)
+            return 'N' if a is None else str(a)
+        except Exception:  # noqa
+            return 'E'
+
+    def gflp(n):
+        try:
+            return int(pmm.get_gflp_idx(n))
+        except KeyError:
+            return 'K'
+    v = {
+        'counts': lambda: '%d/%d/%d/%d' % (pmm.n_models, pmm.n_global_params, pmm.n_global_fixed_params,
+                                           pmm.n_global_floating_params),
+        'gflp': lambda: sl('%s=%s' % (n, gflp(n)) for n in q),
+        'gfd': lambda: fdict(pmm.create_global_floating_params_dict(fm.vector(glist))),
+        'tabidxs': lambda: fmt_rec_signed(pmm.create_src_params_recarray(fm.vector(glist), sources=np.array(list(ii), dtype=np.int32))),
+        'sgnmd': lambda: sl('%d=%s' % (i, sgnmd(i)) for i in ii),
+        'mpnw': lambda: sl('%d/%d=%s' % (i, j, mpn(i, j)) for i, j in pairs),
+    }
+    return {k: _try(f) for k, f in v.items()}
+
+
+def signed_idxs(case):
+    """signed int32 index array for `create_src_params_recarray(sources=…)` / `create_model_params_dict(model=<int>)`:
+    numpy wraps -n..-1, the model dict has an explicit range check; one history in four asks for an index outside [-n, n)"""
+    n = len(case['models'])
+    h = len(repr(case['ops']))
+    base = [-1, 0, -n, n - 1] if n else [-1]
+    if h % 4 == 0:
+        base = base + [-n - 1]
+    elif h % 4 == 1 and n:
+        base = [-(1 + (h // 4) % n)] + base[:2]
+    return base
+
+
+def signed_pairs(case):
+    """(model_idx, gp_idx) pairs for get_model_param_name: in range, wrapped, outside"""
+    n = len(case['models'])
+    return [(-1, -1), (0, 0), (-n, -1), (n - 1, -2), (n, 0), (0, -5), (-n - 1, 0)]
+
+
+def eq_others(case):
+    """constructor arguments of the Parameter objects every parameter of the set is compared with (`==`, both
+    directions): the arguments used in the history and variants of them built from the numbers of the history
+    (current value as initial, one bound moved, fixed with / without bounds, the other kind)"""
+    base = []
+    for op in case['ops']:
+        if op[0] in ('add', 'map'):
+            base.append(list(op[1:6]))
+        elif op[0] == 'union':
+            base += [list(a) for a in op[2]]
+        elif op[0] == 'unionN':
+            base += [list(a) for o in op[2] for a in o]
+    nums = {}
+    for op in case['ops']:
+        if op[0] in ('setv', 'chfix', 'chfixraw') and isinstance(op[2], (int, float)):
+            nums.setdefault(op[1], []).append(float(op[2]))
+        elif op[0] == 'fix':
+            for n, x in op[1].items():
+                if isinstance(x, (int, float)) and not isinstance(x, bool):
+                    nums.setdefault(n, []).append(float(x))
+        elif op[0] == 'float':
+            for n, e in op[1].items():
+                for x in (e if isinstance(e, (list, tuple)) else [e]):
+                    if isinstance(x, (int, float)) and not isinstance(x, bool):
+                        nums.setdefault(n, []).append(float(x))
+    out = []
+
+    def push(a):
+        a = list(a)
+        if a not in out and all(x is None or (isinstance(x, (int, float)) and x == x) for x in a[1:4]):
+            out.append(a)
+    for a in base[:4]:
+        name, ini, lo, hi, fx = a
+        push(a)
+        xs = [x for x in nums.get(name, []) if x != ini][:2]
+        for x in xs:
+            push([name, x, lo, hi, fx])                 # same bounds, the later value as initial
+            push([name, x, None, None, True])           # a fixed parameter of that value
+        if lo is not None and hi is not None:
+            push([name, ini, lo - 1.0, hi, fx])
+            push([name, ini, lo, hi + 1.0, fx])
+            push([name, ini, lo, hi, True])             # fixed, carrying bounds
+            push([name, ini, None, None, True])
+            for x in xs[:1]:
+                push([name, x, min(lo, x) - 1.0, max(hi, x) + 1.0, False])
+                push([name, x, min(lo, x) - 1.0, max(hi, x) + 1.0, True])
+        else:
+            push([name, ini, ini - 1.0, ini + 1.0, True])
+            push([name, ini, ini - 1.0, ini + 1.0, False])
+    return out[:14]
+
+
+def impl_eq_objects(others):
+    from skyllh.core.parameters import Parameter
+    qs = []
+    for a in others:
+        try:
+            qs.append(Parameter(a[0], a[1], valmin=a[2], valmax=a[3], isfixed=a[4]))
+        except Exception:  # noqa
+            pass
+    return qs
+
+
+def impl_peq(ps, others, qs=None):
+    if qs is None:
+        qs = impl_eq_objects(others)
+    return sl('%s=%s' % (p.name, ''.join(fob(bool(p == q)) + fob(bool(q == p)) for q in qs) or '_') for p in ps.params)
+
+
 def local_names(case):
     names = set()
     for op in case['ops']:
@@ -757,6 +1048,20 @@ class _FormsAt:
         if r < 0.91:
             return np.array(x)               # 0-d array
         return repr(x)                       # a string float() understands, e.g. '1.5', 'inf'
+
+    def kw(self, defaults=None, **kw):
+        """glue: an argument equal to its documented default (None; `defaults` for others) is left out half of the
+        time — the defaults are read from the source into Generated/C04.lean (`c04_defaults_for_current_source`)"""
+        if not self.enabled:
+            return kw
+        defaults = defaults or {}
+        out = {}
+        for k, v in kw.items():
+            isdef = (v is None) if k not in defaults else (type(v) is type(defaults[k]) and v == defaults[k])
+            if isdef and self.rng.random() < 0.5:
+                continue
+            out[k] = v
+        return out
 
     def mapping(self, d):
         import collections
@@ -831,6 +1136,10 @@ class Impl:
         self.kind = case['kind']
         self.case_names = local_names(case) if case['kind'] == 'pmm' else []
         self.case_idxs = idx_array(case) if case['kind'] == 'pmm' else []
+        self.eq_others = eq_others(case)
+        self._eq_objs = None
+        self.case_sidx = signed_idxs(case) if case['kind'] == 'pmm' else []
+        self.case_spairs = signed_pairs(case) if case['kind'] == 'pmm' else []
         self._foreign = {}
         self.forms = Forms(case)
         self.t = 0                     # number of ops applied so far
@@ -853,7 +1162,7 @@ class Impl:
 
     def param(self, a, f):
         from skyllh.core.parameters import Parameter
-        return Parameter(a[0], f.num(a[1]), valmin=f.num(a[2]), valmax=f.num(a[3]), isfixed=a[4])
+        return Parameter(a[0], f.num(a[1]), **f.kw(valmin=f.num(a[2]), valmax=f.num(a[3]), isfixed=a[4]))
 
     def apply(self, op):
         f = self.forms.at('op', self.t)
@@ -876,7 +1185,7 @@ class Impl:
         k = op[0]
         ps = self.paramset()
         if k == 'add':
-            ps.add_param(self.param(op[1:6], f), atfront=op[6])
+            ps.add_param(self.param(op[1:6], f), **f.kw({'atfront': False}, atfront=bool(op[6])))
         elif k == 'fix':
             ps.make_params_fixed(keep(f.mapping({n: f.num(v) for n, v in op[1].items()})))
         elif k == 'float':
@@ -938,7 +1247,7 @@ class Impl:
                 alias = op[7]
             else:
                 alias = keep(f.seq(list(op[7]), allow_array=True))
-            self.pmm.map_param(self.param(op[1:6], f), models=models, model_param_names=alias)
+            self.pmm.map_param(self.param(op[1:6], f), **f.kw(models=models, model_param_names=alias))
         else:
             raise ValueError(k)
         return None
@@ -1009,6 +1318,13 @@ class Impl:
         f = self.forms.at('views', self.t, nv)
         out = impl_ps_views(self.paramset(), q, g, f)
         out['probe'] = _try(lambda: impl_probe(self.paramset(), xs))
+        if self._eq_objs is None:
+            self._eq_objs = impl_eq_objects(self.eq_others)     # compared only (`==` must not change its operands)
+            self._eq_snap = [str(x) for x in self._eq_objs]
+        out['peq'] = _try(lambda: impl_peq(self.paramset(), self.eq_others, self._eq_objs))
+        if [str(x) for x in self._eq_objs] != self._eq_snap:
+            out['peq'] = 'EXC:operand-of-==-changed'
+            self._eq_objs = None
         if self.kind == 'pmm' and light:
             for k, v in impl_pmm_views(self.pmm, self.mobjs, self.foreign, g, sels[0], f).items():
                 out['%s@0' % k if k in ('sel', 'tab') else k] = v
@@ -1018,17 +1334,20 @@ class Impl:
                 for k, v in impl_pmm_views(self.pmm, self.mobjs, self.foreign, g, sel, f).items():
                     out['%s@%d' % (k, si) if k in ('sel', 'tab') else k] = v
             out.update(impl_pmm_views2(self.pmm, self.mobjs, g, self.case_names, self.case_idxs, f))
+            out.update(impl_pmm_views3(self.pmm, g, q, f, self.case_sidx, self.case_spairs))
         return out
 
 
-def ref_views(ref, q, g, sels, xs=(), names=(), idxs=()):
+def ref_views(ref, q, g, sels, xs=(), names=(), idxs=(), others=(), sidx=(), spairs=()):
     out = ref.ps_views(q, g)
     out['probe'] = ref.probe(xs)
+    out['peq'] = ref.peq(others)
     if ref.models is not None:
         for si, sel in enumerate(sels):
             for k, v in ref.pmm_views(g, sel).items():
                 out['%s@%d' % (k, si) if k in ('sel', 'tab') else k] = v
         out.update(ref.pmm_views2(g, list(names), list(idxs)))
+        out.update(ref.pmm_views3(g, q, list(sidx), list(spairs)))
     return out
 
 
@@ -1164,7 +1483,10 @@ _SITE = {'returned-view': 'returned-view', 'rini': 'generate_random_floating_par
          'names': 'params_name_list', 'fxn': 'fixed_params_name_list', 'fln': 'floating_params_name_list',
          'fxm': 'fixed_params_mask', 'flm': 'floating_params_mask', 'fxi': 'fixed_params_idxs', 'fli': 'floating_params_idxs',
          'n': 'n_params', 'fxp': 'fixed_params', 'flp': 'floating_params', 'params': 'params',
-         'probe': 'Parameter.value-setter-probe', 'fitloc': 'is_global_fitparam_a_local_param', 'fitall': 'is_global_fitparam_a_local_param', 'fpzz': 'is_local_param_a_fitparam',
+         'probe': 'Parameter.value-setter-probe', 'peq': 'Parameter.__eq__', 'counts': 'n_global_params',
+         'gflp': 'get_gflp_idx', 'gfd': 'create_global_floating_params_dict',
+         'tabidxs': 'create_src_params_recarray/signed-int32-index-array', 'sgnmd': 'create_model_params_dict/signed-int',
+         'mpnw': 'get_model_param_name', 'fitloc': 'is_global_fitparam_a_local_param', 'fitall': 'is_global_fitparam_a_local_param', 'fpzz': 'is_local_param_a_fitparam',
          'mfields': 'unique_model_param_names', 'tabnone': 'create_src_params_recarray/gflp_values=None',
          'wshort': 'wrong-length-vector', 'wlong': 'wrong-length-vector', 'tabidx': 'create_src_params_recarray/int32-index-array',
          'lpfl': 'get_local_param_is_global_floating_param_mask',
@@ -1281,7 +1603,7 @@ def check_history(case, ignore=frozenset(), collect=None):
                     return Failure(t, site, 'reject-leaves-state',
                                    'step %d %r was rejected (%s) but changed view %s (%s): %r -> %r' % (
                                        t, op, got, k, site_of(k), prev[k], iv[k]))
-            rv = ref_views(ref, q, g, sels, xs, impl.case_names, impl.case_idxs)
+            rv = ref_views(ref, q, g, sels, xs, impl.case_names, impl.case_idxs, impl.eq_others, impl.case_sidx, impl.case_spairs)
             for k in rv:
                 if coarse_view(iv.get(k)) == coarse_view(rv[k]):
                     continue
@@ -1347,6 +1669,7 @@ def model_lines(case):
     q = query_names(case)
     sels = selections(case)
     xs = probe_values(case)
+    others = eq_others(case)
     lines, marks = [], []
     if case['kind'] == 'pmm':
         lines.append('pmm ' + sl('%s:%d' % (n, 1 if s else 0) for n, s in case['models']))
@@ -1363,12 +1686,17 @@ def model_lines(case):
         marks.append(('probe', t))
         lines.append('randini %s' % sl(f2b(x) for x in uvec(ref.n_floating())))
         marks.append(('randini', t))
+        lines.append('peq %s' % sl(('%s/%s/%s/%s/%s' % (a[0], f2b(a[1]), fo(a[2]), fo(a[3]), fob(a[4])) for a in others), ';'))
+        marks.append(('peq', t))
         if case['kind'] == 'pmm':
             for si, sel in enumerate(sels):
                 lines.append('pview %s %s' % (g, sel_tok(sel)))
                 marks.append(('pview', (t, si)))
             lines.append('pview2 %s %s %s' % (g, sl(local_names(case)), sl(idx_array(case))))
             marks.append(('pview2', t))
+            lines.append('pview3 %s %s %s %s' % (g, sl(q), sl(signed_idxs(case)),
+                                                 sl('%d/%d' % ij for ij in signed_pairs(case))))
+            marks.append(('pview3', t))
     for t, op in enumerate(case['ops']):
         if op[0] != 'view':
             lines.append(op_line(op))
@@ -1404,7 +1732,9 @@ def model_result(case, marks, answers):
         elif kind == 'randini':
             views.setdefault(t, {})['rini'] = a if (a == '-' or a.startswith('ERR:')) else sl(
                 canon_num(None if x == 'N' else b2f(x)) for x in a.split(','))
-        elif kind == 'pview2':
+        elif kind == 'peq':
+            views.setdefault(t, {})['peq'] = a
+        elif kind in ('pview2', 'pview3'):
             views.setdefault(t, {}).update(parse_views(a))
         elif kind == 'pview':
             (t, si) = t
@@ -1636,8 +1966,12 @@ def gen_setv(rng, ref):
 
 def gen_chfix(rng, ref):
     fx = [p for p in ref.P if p['fx']]
-    if fx and rng.random() < 0.85:
+    fl = [p for p in ref.P if not p['fx']]
+    r = rng.random()
+    if fx and r < 0.75:
         return ['chfix', rng.choice(fx)['name'], rng.choice(VALS)]
+    if fl and r < 0.92:
+        return ['chfix', rng.choice(fl)['name'], rng.choice(VALS)]      # change_fixed_value of a floating parameter: rejected
     return ['chfix', rng.choice(PNAMES + ['zz']), rng.choice(VALS)]
 
 
@@ -1737,6 +2071,9 @@ def gen_sels(rng, models):
         s = rng.sample(src, k)
         if rng.random() < 0.15:
             s.append(n + 1)
+        if len(src) < n and rng.random() < 0.15:
+            # a model of the mapper that is no SourceModel in `sources`: TypeError
+            s.insert(rng.randrange(0, len(s) + 1), rng.choice([i for i in range(n) if i not in src]))
         sels.append(s)
     return sels
 
@@ -2092,6 +2429,14 @@ EXPECTED_BRANCHES = [
     'wrong-length:short', 'wrong-length:long-with-floating', 'wrong-length:long-without-floating(numpy accepts)',
     'tabidx:empty', 'tabidx:repeated', 'tabidx:out-of-range(reject)', 'tabidx:alias-not-a-field(reject)', 'tabidx:accepted',
     'fitparam:floating-not-mapped-to-a-source', 'lpfl:name-of-fixed-only', 'lpfl:name-of-floating', 'mdn:model-dict-by-name',
+    # round 7 (Model/ParamsR7.lean)
+    'eq:name-differs', 'eq:value-differs', 'eq:isfixed-differs', 'eq:initial-differs', 'eq:valmin-differs', 'eq:valmax-differs',
+    'eq:floating-equal', 'eq:fixed-equal', 'eq:fixed-equal-bounds-differ', 'createSome:ok', 'createSome:ctor-error(skipped)',
+    'sourcesTypeOk:non-source-model(TypeError)', 'sourcesTypeOk:foreign-source', 'sourcesTypeOk:own-sources',
+    'recarrayChecked:TypeError-after-length-check', 'gflpIdx:found', 'gflpIdx:KeyError-fixed-name', 'gflpIdx:KeyError-unknown-name',
+    'normIdx:nonneg-in-range', 'normIdx:negative-wrapped', 'normIdx:below(-n)(IndexError)', 'normIdx:above(n-1)(IndexError)',
+    'modelParamsDictInt:out-of-range(IndexError)', 'modelParamsDictInt:in-range', 'srcRowsIdxInt:accepted',
+    'srcRowsIdxInt:index-error', 'srcRowsIdxInt:alias-not-a-field(reject)', 'getModelParamName:ok', 'getModelParamName:IndexError',
 ]
 
 
@@ -2104,6 +2449,8 @@ UNREACHABLE_BRANCHES = [
     "the creation-time instance is tied (create:reject-floating-without-bounds)",
     "rebuildLoop: `f p = error` inside the loop, updateFixedValueCache / maskSel IndexError, overwrite IndexError — excluded by "
     "the validation pass / Coherent (c04_reject_leaves_state, c04_update_cache_restores)",
+    "neOptV: `none` operands (`None != x`, `None != None`) — reached only when *both* parameters are floating (the kind is "
+    "compared first) and a floating Parameter has both bounds (ParamWF, c04_create_wf)",
 ]
 
 
@@ -2305,6 +2652,73 @@ def branch_cover(case, outcomes):
     # read-only views at the final state
     P = ref.P
     nfl = sum(1 for p in P if not p['fx'])
+    qs = []
+    for a in eq_others(case):
+        try:
+            qs.append(ref_param(a))
+            br.add('createSome:ok')
+        except RefErr:
+            br.add('createSome:ctor-error(skipped)')
+    for x in P:
+        for y in qs:
+            for (a, b) in ((x, y), (y, x)):
+                if a['name'] != b['name']:
+                    br.add('eq:name-differs')
+                elif a['val'] != b['val']:
+                    br.add('eq:value-differs')
+                elif a['fx'] != b['fx']:
+                    br.add('eq:isfixed-differs')
+                elif a['fx']:
+                    br.add('eq:fixed-equal')
+                    if (a['lo'], a['hi']) != (b['lo'], b['hi']):
+                        br.add('eq:fixed-equal-bounds-differ')
+                elif a['ini'] != b['ini']:
+                    br.add('eq:initial-differs')
+                elif a['lo'] != b['lo']:
+                    br.add('eq:valmin-differs')
+                elif a['hi'] != b['hi']:
+                    br.add('eq:valmax-differs')
+                else:
+                    br.add('eq:floating-equal')
+    if kind == 'pmm':
+        fln = [p['name'] for p in P if not p['fx']]
+        for nm in query_names(case):
+            br.add('gflpIdx:found' if nm in fln else 'gflpIdx:KeyError-fixed-name' if nm in [p['name'] for p in P]
+                   else 'gflpIdx:KeyError-unknown-name')
+        nm_ = len(ref.models)
+        srcs_ = [i for i in range(nm_) if ref.models[i][1]]
+        flds_ = set(a for i in srcs_ for a in ref.alias[i] if a is not None)
+
+        def norm(i, length):
+            if i >= 0:
+                br.add('normIdx:nonneg-in-range' if i < length else 'normIdx:above(n-1)(IndexError)')
+                return i if i < length else None
+            br.add('normIdx:negative-wrapped' if i + length >= 0 else 'normIdx:below(-n)(IndexError)')
+            return i + length if i + length >= 0 else None
+        sidx = signed_idxs(case)
+        ws = [norm(i, nm_) for i in sidx]
+        for i in sidx:
+            br.add('modelParamsDictInt:in-range' if 0 <= i < nm_ else 'modelParamsDictInt:out-of-range(IndexError)')
+        if any(w is None for w in ws):
+            br.add('srcRowsIdxInt:index-error')
+        elif any(a is not None and a not in flds_ for w in ws for a in ref.alias[w]):
+            br.add('srcRowsIdxInt:alias-not-a-field(reject)')
+        else:
+            br.add('srcRowsIdxInt:accepted')
+        for (i, j) in signed_pairs(case):
+            wi, wj = norm(i, nm_), norm(j, len(P))
+            br.add('getModelParamName:IndexError' if (wi is None or wj is None) else 'getModelParamName:ok')
+        for sel in selections(case):
+            if sel is None:
+                continue
+            if any(i < nm_ and not ref.models[i][1] for i in sel):
+                br.add('sourcesTypeOk:non-source-model(TypeError)')
+                br.add('recarrayChecked:TypeError-after-length-check')
+            else:
+                if any(i >= nm_ for i in sel):
+                    br.add('sourcesTypeOk:foreign-source')
+                if any(i < nm_ for i in sel):
+                    br.add('sourcesTypeOk:own-sources')
     if kind == 'pmm':
         n = len(ref.models)
         src = [i for i in range(n) if ref.models[i][1]]
@@ -2547,6 +2961,8 @@ def run(ctx):
     for ci, models in enumerate(PMM_CONFIGS[:ctx.n(2, 4)]):
         src = [i for i in range(len(models)) if models[i][1]]
         sels = [[src[0]], [src[-1], len(models) + 1]]
+        if len(src) < len(models) and ci % 2 == 0:
+            sels.append([src[0], [i for i in range(len(models)) if i not in src][0]])
         alpha = pmm_alphabet(models)
         add_enum('pmm', alpha[:ctx.n(4, PMM_REDUCED)], ctx.n(4, 6) if ci < 1 else ctx.n(4 if ci < 2 else 3, 5), models, sels)
         add_enum('pmm', alpha, ctx.n(2, 3 if ci < 2 else 2), models, sels)
@@ -2554,7 +2970,7 @@ def run(ctx):
     _process(ctx, cases, 'enum')
     # ---- random histories (views after every step)
     cases = []
-    for _ in range(ctx.n(200, 4000)):
+    for _ in range(ctx.n(200, 3000)):
         kind = rng.choice(['ps', 'pmm'])
         length = rng.choice([1, 2, 3, 4, 5, 6, 6, 8, 10, 12])
         cases.append(gen_history(rng, kind, length))
@@ -2564,7 +2980,7 @@ def run(ctx):
         cases.append(gen_raw_history(rng, rng.choice(['ps', 'pmm']), rng.choice([3, 4, 6, 8])))
     _process(ctx, cases, 'random')
     # ---- worlds of set objects sharing Parameter objects: model (heap + references) vs. implementation
-    wcs = [gen_world(rng, rng.choice([3, 4, 6, 8, 10])) for _ in range(ctx.n(80, 1000))]
+    wcs = [gen_world(rng, rng.choice([3, 4, 6, 8, 10])) for _ in range(ctx.n(80, 800))]
     wlines, wspans = [], []
     for wc in wcs:
         ls = world_lines(wc)
@@ -2614,7 +3030,13 @@ MANIFEST = dict(
           'rejected and leave the state untouched; the value setter accepts exactly the fixed value / the values inside the bounds (make_fixed(None): initial := value); the per-source table cell of a well-formed mapper is exactly the value of the '
           'parameter mapped under that alias. The executable model (caches, index arithmetic, boolean masks as coded) is compared '
           'exactly with the real Parameter/ParameterSet/ParameterModelMapper on bounded-exhaustive and random edit histories; an '
-          'independent plain-Python table searches the implementation for failing histories.'),
+          'independent plain-Python table searches the implementation for failing histories. Round 7: Parameter.__eq__ in closed form, '
+          'an equivalence, equal parameters accept the same values (c04_param_eq_iff/_equiv/_same_setter/_in_set); the TypeError branch of '
+          'get_src_model_idxs for non-source models (c04_src_model_idxs_checked, c04_src_recarray_checked); counters / get_gflp_idx / '
+          'floating dict of the mapper (c04_mapper_counts_gflp); signed indices: range check of create_model_params_dict vs. numpy '
+          'wrap-around of get_model_param_name and of the int32 index array (c04_signed_index, c04_model_dict_int, '
+          'c04_src_recarray_idx_signed, c04_get_model_param_name); eleven signature defaults read from the source '
+          '(c04_defaults_for_current_source), left-out vs. explicit default arguments are a generated call form.'),
     note=('Model mirrors the code after the fix commits 5913c1e, 747228b, 2813c18, 0849331, dd3a2d6 (known_findings.json), 04cfca6 (branch agent-C04-r3: make_params_fixed casts before mutating) and the gpidx semantics of 134adfc; open finding: shared Parameter objects (union / ParameterSet(params) / map_param) leave the caches of the other container stale; the code before '
           '2813c18 is kept as editAllUnvalidated with a proved counterexample. Values are compared, never computed (no IEEE issue); '
           'NaN values, int32 source-index arrays, edits of union operands after the union (shared Parameter objects) and direct '
